@@ -43,6 +43,10 @@ def col_array(col):
     vals = [cell_py(v) for v in col["values"]]
     k = col["kind"]
     if k == "text":
+        if any(not isinstance(v, str) for v in vals):
+            # an explicit object Series keeps each spelling of an empty cell (None / NaN / NaT) as given;
+            # a bare object array would be re-inferred by the DataFrame constructor
+            return pd.Series(vals, dtype=object)
         return np.array(vals, dtype=object) if vals else np.array([], dtype=object)
     if k == "onoff":
         return np.array(vals, dtype=bool)
